@@ -2,8 +2,11 @@
 package c03
 
 import (
+	"errors"
 	"fmt"
 	"strings"
+
+	"github.com/bitcoin-sv/block-headers-service/verifharness/deco"
 
 	"github.com/bitcoin-sv/block-headers-service/verifharness/ev"
 	"github.com/bitcoin-sv/block-headers-service/verifharness/gen"
@@ -72,21 +75,39 @@ func fieldSig(n *refmodel.Node) string {
 	return fmt.Sprintf("v=%s,t=%s,n=%s,b=%s,%s", classI32(n.Version), classU32(n.Time), classU32(n.Nonce), bitsClass(n.Bits), rel)
 }
 
+// fault: the next INSERT of a header fails at the repository seam (armed per submission by the ingesting goroutine).
+var fault struct{ armed, fired bool }
+
 func body(r *ev.Run) {
-	r.Rule("seeded random histories with field extremes (int32 version corners and random, uint32 nonce/bits corners and random, timestamps over the whole uint32 epoch range, random 32-byte merkle roots and parents) incl. forks, orphans, late parents, reorganisations, duplicates; half of the headers delivered as bytes of a `headers` message through the real wire decoder (as the sync engines receive them), half through Chains.Add directly; restarts (close + database.Init) at seeded points and at the end. After every submission: full-table comparison with independently computed hash/height/work/cumulative work/fields, immutability monitor (every column but header_state byte-identical, no row vanishes), round trip of the new header through Headers.GetHeaderByHash and GET /chain/header/{hash}, /chain/header/state/{hash}. distinct = distinct (version class, time class, nonce class, bits class, parent relation) cells of stored headers; non-trivial = all of them (each cell is a distinct field-corner combination).")
+	r.Rule("seeded random histories with field extremes (int32 version corners and random, uint32 nonce/bits corners and random, timestamps over the whole uint32 epoch range, random 32-byte merkle roots and parents) incl. forks, orphans, late parents, reorganisations, duplicates; half of the headers delivered as bytes of a `headers` message through the real wire decoder (as the sync engines receive them), half through Chains.Add directly; restarts (close + database.Init) at seeded points and at the end; in half of the histories one submission in 15 or 40 has its INSERT fail at the repository seam (the header is not stored; its child typically follows at once; in half of these the header is delivered again after the next one) - after a failed INSERT the chain-state label is left out of the comparison for the rest of that history. Plus stores of 501..1600 longest-chain headers (side branches included) exported and imported by the real start-up path (prepared_db), compared row by row with the model, extended by ingestion and restarted. After every submission: full-table comparison with independently computed hash/height/work/cumulative work/fields, immutability monitor (every column but header_state byte-identical, no row vanishes), round trip of the new header through Headers.GetHeaderByHash and GET /chain/header/{hash}, /chain/header/state/{hash}. distinct = distinct (version class, time class, nonce class, bits class, parent relation) cells of stored headers; non-trivial = all of them (each cell is a distinct field-corner combination).")
 	r.Assume("reference arithmetic in refmodel (cross-checked exhaustively by C19)", "SQLite only")
 	r.Require("restarts", 5)
 	r.Require("headers_stored", 500)
+	r.Require("insert_failures_injected", 20)
+	r.Require("children_delivered_right_after_a_failed_insert", 5)
 	mb.ForbiddenHeaders()
 	// every second stored header is delivered the way a peer delivers it: as the bytes of a `headers` message decoded
 	// by the real wire codec (the frame is built by the harness, not by the encoder under test)
 	mb.ViaWire = func(h refmodel.Hdr) bool { return h.Nonce%2 == 0 }
-	st, err := rig.New(rig.Options{Dir: r.Scratch})
+	hooks := &deco.Hooks{Before: func(op string, _ bool, _ string) error {
+		if op == "AddHeaderToDatabase" && fault.armed {
+			fault.armed, fault.fired = false, true
+			return errors.New("verif: injected insert failure")
+		}
+		return nil
+	}}
+	st, err := rig.New(rig.Options{Dir: r.Scratch, WrapHeaders: deco.Wrap(hooks)})
 	if err != nil {
 		r.Violate("harness|rig", err.Error(), "", nil)
 		return
 	}
 	defer st.Destroy()
+	r.Require("imported_stores_compared", 2)
+	nImp := r.Pick(4, 64)
+	for i := 0; i < nImp; i++ {
+		caseID := fmt.Sprintf("import/%d", i)
+		r.Do(caseID, func() { importedStore(r, caseID) })
+	}
 	nHist := r.Pick(320, 6000)
 	for i := 0; i < nHist; i++ {
 		caseID := fmt.Sprintf("h/%d", i)
@@ -102,34 +123,93 @@ func body(r *ev.Run) {
 				FieldExtreme: true,
 			}
 			hist := gen.Random(rng, rig.Genesis(), o)
-			runHistory(r, st, caseID, hist, rng.Intn(3) == 0, func() bool { return rng.Intn(25) == 0 })
+			pFail := []int{0, 0, 40, 15}[rng.Intn(4)] // one submission in pFail has its INSERT fail (0: none)
+			runHistory(r, st, caseID, hist, rng.Intn(3) == 0, func() bool { return rng.Intn(25) == 0 }, func() int {
+				if pFail == 0 || rng.Intn(pFail) != 0 {
+					return 0
+				}
+				return 1 + rng.Intn(2)
+			})
 		})
 	}
 }
 
-func runHistory(r *ev.Run, st *rig.Stack, caseID string, hist gen.History, httpAll bool, restartNow func() bool) {
+// failNow: 0 = no fault for this submission; 1 = its INSERT fails; 2 = its INSERT fails and the header is delivered again
+// after the next one (so that its child, if that is what follows, arrives first).
+func runHistory(r *ev.Run, st *rig.Stack, caseID string, hist gen.History, httpAll bool, restartNow func() bool, failNow func() int) {
 	if err := st.Reset(); err != nil {
 		r.Violate("harness|reset", err.Error(), caseID, nil)
 		return
 	}
 	m := mb.NewModel()
 	imm := snap.NewImmutability()
+	var failedAt []int
 	detail := func(step int) map[string]any {
-		return map[string]any{"history_hex": hist.Hex(), "failed_at_step": step}
+		return map[string]any{"history_hex": hist.Hex(), "failed_at_step": step, "insert_failures_injected_at_steps": failedAt}
 	}
 	stored := 0
-	for i, h := range hist.Hdrs {
-		si := mb.Step(st, m, h)
+	work := append([]refmodel.Hdr(nil), hist.Hdrs...)
+	redelivery := map[int]bool{}
+	var lastFailed *refmodel.Hash
+	for i := 0; i < len(work); i++ {
+		h := work[i]
+		hist = gen.History{Hdrs: work}
+		var si mb.StepInfo
+		fired := false
+		if mode := failNow(); mode > 0 && !redelivery[i] {
+			fault.armed, fault.fired = true, false
+			var res rig.AddResult
+			if mb.ViaWire != nil && mb.ViaWire(h) {
+				res = st.AddViaWire(h)
+			} else {
+				res = st.Add(h)
+			}
+			fired = fault.fired
+			fault.armed, fault.fired = false, false
+			if fired {
+				failedAt = append(failedAt, i)
+				r.Count("insert_failures_injected", 1)
+				if res.Panic != nil {
+					r.Violate("panic|insert-failed", fmt.Sprintf("Chains.Add panicked when the INSERT failed: %v", res.Panic), caseID, detail(i))
+					return
+				}
+				if res.Code() == "stored" {
+					r.Violate("answer|insert-failed->stored", "submission whose INSERT failed was answered as stored", caseID, detail(i))
+					return
+				}
+				hh := h.HashOf()
+				lastFailed = &hh
+				if mode == 2 {
+					at := i + 2
+					if at > len(work) {
+						at = len(work)
+					}
+					work = append(work[:at], append([]refmodel.Hdr{h}, work[at:]...)...)
+					redelivery[at] = true
+					r.Count("redeliveries_after_a_failed_insert", 1)
+				}
+				si = mb.StepInfo{Outcome: "insert-failed", Res: res}
+			} else {
+				si = mb.StepInfo{PrevBest: m.Best(), Res: res}
+				si.Outcome, si.Node, si.Reorg = m.Submit(h)
+			}
+		} else {
+			if lastFailed != nil && h.Prev == *lastFailed {
+				r.Count("children_delivered_right_after_a_failed_insert", 1)
+			}
+			lastFailed = nil
+			si = mb.Step(st, m, h)
+		}
 		if si.Res.Panic != nil {
 			r.Violate("panic", fmt.Sprintf("Chains.Add panicked: %v", si.Res.Panic), caseID, detail(i))
 			return
 		}
-		if got, want := si.Res.Code(), mb.WantCode(si.Outcome); got != want {
+		if got, want := si.Res.Code(), mb.WantCode(si.Outcome); !fired && got != want {
 			r.Violate("answer|"+want+"->"+got, fmt.Sprintf("submission answered %q, expected %q (%v)", got, want, si.Res.Err), caseID, detail(i))
 			return
 		}
 		restarted := false
-		if restartNow() || i == len(hist.Hdrs)-1 {
+		if restartNow() || i == len(work)-1 {
 			pre, err := snap.TakeHeaders(st.DB)
 			if err != nil {
 				r.Violate("harness|snapshot", err.Error(), caseID, nil)
@@ -151,7 +231,7 @@ func runHistory(r *ev.Run, st *rig.Stack, caseID string, hist gen.History, httpA
 			r.Count("restarts", 1)
 			restarted = true
 		}
-		if si.Outcome != refmodel.Stored && !restarted {
+		if si.Outcome != refmodel.Stored && !restarted && !fired {
 			continue
 		}
 		t, err := snap.TakeHeaders(st.DB)
@@ -167,7 +247,19 @@ func runHistory(r *ev.Run, st *rig.Stack, caseID string, hist gen.History, httpA
 			r.Violate("immutability|"+kind, bad, caseID, detail(i))
 			return
 		}
-		if ds := mb.CompareTable(m, t, false); len(ds) > 0 {
+		ds := mb.CompareTable(m, t, false)
+		if len(failedAt) > 0 {
+			// a failed INSERT in the middle of a reorganisation legitimately leaves chain-state labels behind until the
+			// header is delivered again (C05's business); labels are the one column this property lets change
+			kept := ds[:0]
+			for _, d := range ds {
+				if d.Field != "state" {
+					kept = append(kept, d)
+				}
+			}
+			ds = kept
+		}
+		if len(ds) > 0 {
 			fields := map[string]bool{}
 			for _, d := range ds {
 				fields[d.Field] = true
@@ -198,6 +290,11 @@ func runHistory(r *ev.Run, st *rig.Stack, caseID string, hist gen.History, httpA
 		if err != nil || g == nil {
 			r.Violate("service-roundtrip|not-found", fmt.Sprintf("GetHeaderByHash(%s) failed right after storing: %v", n.Hash, err), caseID, detail(i))
 			return
+		}
+		if len(failedAt) > 0 { // labels are left out after a failed INSERT (see above)
+			n2 := *n
+			n2.State = string(g.State)
+			n = &n2
 		}
 		if g.Hash.String() != n.Hash.String() || g.Version != n.Version || g.PreviousBlock.String() != n.Prev.String() || g.MerkleRoot.String() != n.Merkle.String() ||
 			g.Timestamp.Unix() != int64(n.Time) || g.Timestamp.Nanosecond() != 0 || g.Bits != n.Bits || g.Nonce != n.Nonce || g.Height != n.Height ||
